@@ -145,7 +145,7 @@ class Ctx:
         fcntl.flock(lock, fcntl.LOCK_EX)
         try:
             base = ['g++', '-std=c++14', opt, '-g', '-fno-access-control', '-DDISPENSO_VERIF', '-DNDEBUG',
-                    '-pthread', '-I' + REPO, '-I' + os.path.join(REPO, 'dispenso/third-party/moodycamel'),
+                    '-pthread', '-I' + REPO, '-I' + os.path.join(REPO, 'dispenso/third-party'), '-I' + os.path.join(REPO, 'dispenso/third-party/moodycamel'),
                     '-I' + os.path.join(ROOT, 'harness')]
             if sanitize:
                 base += ['-fsanitize=address,undefined', '-fno-omit-frame-pointer',
@@ -155,8 +155,12 @@ class Ctx:
             units += [os.path.join(REPO, 'dispenso', d) for d in dispenso]
             jobs = []
             objs = []
+            shared = os.path.join(BUILD, 'obj', variant, '_shared')
+            os.makedirs(shared, exist_ok=True)
             for u in units:
-                o = os.path.join(objdir, re.sub(r'[^A-Za-z0-9_.]', '_', os.path.relpath(u, '/')) + '.o')
+                # objects are shared between drivers that compile a unit with identical flags
+                key = hashlib.sha1((' '.join(base) + '|' + u).encode()).hexdigest()[:16]
+                o = os.path.join(shared, os.path.basename(u).replace('.cpp', '') + '-' + key + '.o')
                 objs.append(o)
                 cmd = base + ['-MMD', '-MF', o + '.d', '-c', u, '-o', o]
                 if self._stale(o, cmd):
@@ -176,7 +180,7 @@ class Ctx:
             exe = os.path.join(objdir, name)
             link = ['g++', '-o', exe] + objs + ['-pthread'] + \
                 (['-fsanitize=address,undefined'] if sanitize else []) + list(libs)
-            if jobs or not os.path.exists(exe):
+            if True:  # always relink (cheap); objects may have been rebuilt by another driver
                 p = subprocess.run(link, stdout=subprocess.PIPE, stderr=subprocess.STDOUT, text=True)
                 if p.returncode != 0:
                     raise ToolError('link failed: %s\n%s' % (name, p.stdout[-6000:]))
@@ -304,14 +308,14 @@ class Ctx:
         return res
 
     def validate(self, specdir, module, cfg, trace, what, executions=0, timeout=900, label=None,
-                 heap='8g', deque=False):
+                 heap='8g', deque=False, report=True):
         """E3: TLC trace validation of an ndjson trace recorded from the implementation."""
         nlines = sum(1 for _ in open(trace))
         res = self.tlc(specdir, module, cfg, workers=1, env={'TRACE': trace}, timeout=timeout,
                        label=label or ('trace:' + os.path.basename(trace)), heap=heap, count=False,
                        deque=deque)
         self.cov['trace_events_validated'] += max(0, (res.depth or 0) - 1)
-        if res.violation:
+        if res.violation and report:
             line = res.rejected_line
             if line is None and res.depth:
                 line = res.depth  # invariant violated in the state reached by that line
@@ -322,7 +326,7 @@ class Ctx:
             kind = 'rejected' if res.violation == 'Postcondition' else res.violation
             self.violation('trace:%s:%s' % (module, kind),
                            '%s: implementation trace %s (line %s)' % (what, kind, line), path)
-        else:
+        elif not res.violation:
             self.cov['traces_validated_against_impl'] += executions
         return res
 
@@ -364,7 +368,7 @@ class Ctx:
             pass
         return info
 
-    def driver(self, exe, args, what, timeout=600, label=None, env=None, allow_incomplete=False):
+    def driver(self, exe, args, what, timeout=600, label=None, env=None, allow_incomplete=False, report=True):
         """Runs a driver; parses its DRIVER line.  A run that diverges from the schedule, gets stuck,
         crashes or (unless allowed) deadlocks is a violation candidate: it is re-run once and only
         reported if it repeats."""
@@ -391,7 +395,9 @@ class Ctx:
             return rc, out, tot, time.time() - t0
         rc, out, tot, wall = once()
         bad = self._driver_bad(rc, tot, allow_incomplete)
-        if bad:
+        if bad and not report:
+            tot = {}
+        elif bad:
             rc2, out2, tot2, wall2 = once()
             bad2 = self._driver_bad(rc2, tot2, allow_incomplete)
             if bad2:
